@@ -170,8 +170,13 @@ def run(ctx, env):
     ctx.rule("R2.6", "set/message body length = header.length saturating-minus the wire size of the enclosing header")
     ctx.rule("R2.7", "an empty buffer adds no element")
     ctx.rule("R2.8", "no silent consumption: in every hand-written parser (crate function / closure returning (remaining, value), not generated by nom-derive) each parser application on the chain of the returned remainder contributes the value it decoded to the result (returned, stored in a collection, or parsed further) — bytes cannot be consumed without being accounted for by a reported element")
+    ctx.rule("R2.9", "a V5 / V7 packet is its header followed by count(<record>, header.count): it consumes exactly the 24 + 48|52 x count bytes its header implies, all or nothing (shared with C03 R3.3)")
     from . import consume
     consume.rule(ctx, prog, an, "R2.8", lambda b: True, floor=30)
+    from . import c03
+    lay = layout.Layouts(prog, an)
+    for ver in sorted(c03.STRUCTS):
+        c03.fixed_count_rule(ctx, prog, an, lay, ver, "R2.9")
     body = entry_body(ctx, prog, "R2.1")
     if body is None:
         return
@@ -378,7 +383,7 @@ def wrappers_rule(ctx, prog, an):
     ctx.floor("R2.5", "wrappers", "version wrappers", n, 4)
 
 
-def feed_back_rule(ctx, prog, an, body, pcs):
+def feed_back_rule(ctx, prog, an, body, pcs, rid="R2.5", support=True):
     """The slice handed to the dispatcher is the entry slice or the previous Ok(..).remaining, nothing else."""
     for blk, t, c in pcs:
         arg = an.op(body, t["args"][-1])
@@ -387,7 +392,7 @@ def feed_back_rule(ctx, prog, an, body, pcs):
         for m in members:
             m = peel(m)
             if m == ("arg", 2):
-                ctx.ob("R2.5", body.path, "input:entry-slice", True, "dispatcher input is the caller's buffer", site=body.line(blk))
+                ctx.ob(rid, body.path, "input:entry-slice", True, "dispatcher input is the caller's buffer", site=body.line(blk))
                 continue
             ok = False
             if m[0] == "field" and m[2] == "remaining":
@@ -397,8 +402,10 @@ def feed_back_rule(ctx, prog, an, body, pcs):
                     if src[0] == "cycle":
                         src = an.slicer(body).single_call_def(src[1]) or src
                     ok = src[0] == "call" and src[2] is not None and src[2].local and any(src[2].path == cc.path for _, _, cc in pcs)
-            ctx.ob("R2.5", body.path, "input:fed-back-remainder", ok,
+            ctx.ob(rid, body.path, "input:fed-back-remainder", ok,
                    "dispatcher input member = %s (must be Ok(parse result).remaining)" % canon(m)[:300], site=body.line(blk))
+    if not support:
+        return
     # R2.2 support: the current-slice local is only assigned from those members (checked above) and
     # never between the dispatcher call and the error construction:
     sl = an.slicer(body)
